@@ -798,6 +798,7 @@ def threads_rt(tier, seed, ci, nc):
         yield ('rt:asforged_threads', 'inspect')
         yield ('rt:asforged_threads', 'sigtools')
         yield ('rt:window',)
+        yield ('rt:window_resolution',)
         for k in range(2 if tier == 'quick' else 12):
             yield ('rt:stress', seed * 100 + k, 300 if tier == 'quick' else 1500, 4 if tier == 'quick' else 6)
     return _slice(gen(), ci, nc)
@@ -1064,6 +1065,13 @@ def declfwd(tier, seed, ci, nc, count=600):
 
 
 STREAMS['declfwd'] = declfwd
+
+
+def probes_c04(tier, seed, ci, nc):
+    yield ('rt:stacked_decl',)
+
+
+STREAMS['probes_c04'] = probes_c04
 
 
 # ----------------------------------------------------------------------------- inputs that already carry provenance (C08)
